@@ -409,6 +409,12 @@ static void src_pump_cb(struct upump *upump) { (void)upump; }
 static bool complete_tainted;          /* something happened that legitimately drops or keeps buffers */
 static bool sink_blocked_ever;
 static uint64_t buffer_max_size, largest_input;
+/* C20, first clause at any later instant: what the last accepted setter of option
+ * w stored, until something that may legitimately change it (another accepted
+ * setter of the same pipe that shares its storage, an accepted flow definition,
+ * a failed allocation) */
+static struct { bool valid; uint64_t v; const char *what; } opt_model[3];
+static void opt_model_forget(void) { for (int w = 0; w < 3; w++) opt_model[w].valid = false; }
 static unsigned row_seq;
 static int pic_rows = 16;              /* height of the pictures made (row_join is fed rows of 4) */
 static bool pid_enabled[4];            /* model of ts_pid_filter: PIDs 0x100..0x103 */
@@ -729,6 +735,7 @@ static void env_setup(void)
     memset(pid_enabled, 0, sizeof(pid_enabled));
     row_seq = 0;
     pic_rows = !strcmp(types[type].name, "row_join") ? 4 : 16;
+    opt_model_forget();
     buffer_max_size = 0;        /* (upipe_buffer's default: nothing fits until the application says how much) */
     ut = NULL;
     ut_ready = ut_dead = ut_events = ut_fatal = ut_error = 0;
@@ -918,6 +925,7 @@ static void req_invariant(const char *when)
 }
 
 #define NTYPED 8
+static bool incomplete_sound_defs = true;
 static struct uref *typed_def(uint64_t which, uint64_t x, int *kind_p)
 {
     struct uref *fd = NULL;
@@ -997,6 +1005,17 @@ static struct uref *typed_def(uint64_t which, uint64_t x, int *kind_p)
             uref_flow_set_def(fd, "block.");
         *kind_p = K_BLOCK;
         break;
+    }
+    /* (sometimes a sound definition without its rate, its channels or its
+     * sample size: whoever needs them has to refuse it, and refuse it cleanly) */
+    unsigned w = which % NTYPED;
+    if (fd != NULL && incomplete_sound_defs && (w == 1 || w == 2 || w == 3 || w == 5)) {
+        if ((x & 32) && !(x & 2))
+            uref_sound_flow_delete_rate(fd);
+        if ((x & 32) && (x & 2))
+            uref_sound_flow_delete_channels(fd);
+        if ((x & 64) && w != 5)
+            uref_sound_flow_delete_sample_size(fd);
     }
     return fd;
 }
@@ -1172,6 +1191,7 @@ static void do_op_inner(const struct sim_op *op)
         if (held_while_waiting)
             flow_defs_behind_held++;
         if (ubase_check(err)) {
+            opt_model_forget();
             flow_def_accepted = true;
             cur_kind = kind;
             SIM_PROBE("sweep_flow_def_accepted");
@@ -1386,6 +1406,16 @@ static void do_op_inner(const struct sim_op *op)
             rejected[cur_op] = !ubase_check(err);
         if (!ubase_check(err))
             trace_forget_events_since(n0);
+        if (mode == MODE_PRIMARY) {
+            /* (only upipe_buffer has three options that do not share storage) */
+            if (strcmp(name, "buffer") || !ubase_check(err))
+                opt_model_forget();
+            if (ubase_check(err) && w < 3) {
+                opt_model[w].valid = true;
+                opt_model[w].v = v;
+                opt_model[w].what = what;
+            }
+        }
         if (ubase_check(err) && !strcmp(name, "buffer") && w == 0) {
             buffer_max_size = v;
             if (v < largest_input)
@@ -1430,7 +1460,13 @@ static void do_op_inner(const struct sim_op *op)
         for (int w = 0; w < 3; w++) {
             uint64_t got = 0;
             const char *what = NULL;
-            option_access(w, false, &got, &what);
+            int gerr = option_access(w, false, &got, &what);
+            if (what == NULL || !opt_model[w].valid || !checking() || provider_failed || sim_alloc_failed())
+                continue;
+            SIM_PROBE("sweep_option_read_back_later");
+            if (!ubase_check(gerr) || got != opt_model[w].v)
+                sim_violation(V_GETTER, "%s: %s was set to %" PRIu64 " (accepted, no setter called since), the getter now %s %" PRIu64,
+                              types[type].name, opt_model[w].what, opt_model[w].v, ubase_check(gerr) ? "reports" : "fails; it left", got);
         }
         trace_forget_events_since(n0);
         break;
